@@ -122,9 +122,12 @@ template <bool NoneIsLeaf>
     switch (node.kind) {
         case PyTreeKind::Leaf: {
             node.arity = 0;
-            PyErr_WarnEx(PyExc_UserWarning,
-                         "PyTreeSpec::MakeFromCollection() is called on a leaf.",
-                         /*stack_level=*/2);
+            if (PyErr_WarnEx(PyExc_UserWarning,
+                             "PyTreeSpec::MakeFromCollection() is called on a leaf.",
+                             /*stack_level=*/2) < 0) [[unlikely]] {
+                // The warning was turned into an exception: propagate it.
+                throw py::error_already_set();
+            }
             break;
         }
 
